@@ -1,0 +1,1 @@
+//! Verification hooks: `server` (thin pass-through wrappers; feature `verif-hooks` only).
